@@ -541,6 +541,9 @@ type segEntries struct {
 }
 
 func (s segEntries) lastNr() int {
+	if s.startNr < 0 {
+		return -1 // No segment yet: the next one is the first
+	}
 	nrSegs := 0
 	for _, e := range s.entries {
 		nrSegs += int(e.R) + 1
